@@ -40,7 +40,10 @@ class Feed:
         self.rec, self.items = rec, items
 
     def __iter__(self):
-        self.rec["iters"] = self.rec.get("iters", 0) + 1
+        self.rec["iters"] = self.rec.get("iters", 0) + 1      # observable at once, not only on the first next()
+        return self._gen()
+
+    def _gen(self):
         rec = self.rec
         for it in self.items:
             rec["pulled"] += 1
